@@ -242,7 +242,8 @@ class SqlRunner:
                 buf.append(line)
                 if len(buf) > 200:
                     del buf[:100]
-        threading.Thread(target=drain, args=(self.p, self.errbuf), daemon=True).start()
+        self.drainer = threading.Thread(target=drain, args=(self.p, self.errbuf), daemon=True)
+        self.drainer.start()
         threading.Thread(target=watchdog, args=(self.p, self.mem_gb << 30), daemon=True).start()
 
     def run(self, stmts, threads=4, timeout=None):
@@ -261,6 +262,7 @@ class SqlRunner:
         if self.p is None or self.p.poll() is not None:
             self._start()
         self.n += 1
+        del self.errbuf[:]            # panics caught while serving earlier requests are not this request's crash message
         req = json.dumps({"id": self.n, "threads": threads, "stmts": stmts})
         try:
             self.p.stdin.write(req + "\n")
@@ -277,6 +279,7 @@ class SqlRunner:
             r, _, _ = select.select([self.p.stdout], [], [], min(remaining, 1.0))
             if not r:
                 if self.p.poll() is not None:
+                    self._settle()
                     tail = "".join(self.errbuf[-8:])
                     killed = self.rss_killed
                     self._kill()
@@ -285,7 +288,7 @@ class SqlRunner:
                 continue
             line = self.p.stdout.readline()
             if not line:
-                time.sleep(0.05)
+                self._settle()
                 tail = "".join(self.errbuf[-8:])
                 rc = self.p.poll()
                 killed = self.rss_killed
@@ -300,6 +303,18 @@ class SqlRunner:
                 continue
             if msg.get("id") == self.n:
                 return msg["results"]
+
+    def _settle(self):
+        """The child closed stdout: wait for it to exit and for its stderr to be read to the end, so that the panic
+        message (the key of a crash finding) is complete."""
+        try:
+            self.p.wait(timeout=5)
+        except Exception:
+            pass
+        try:
+            self.drainer.join(timeout=3)
+        except Exception:
+            pass
 
     def _kill(self):
         if self.p is not None:
